@@ -24,10 +24,10 @@ func init() {
 // reviewedDerefs: dereferences accepted without a local guard, keyed by function and field.
 // Each entry states why the statement does not quantify over the case.
 var reviewedDerefs = map[string]string{
-	"(pkg/cloudprovider/aws.Builder).Build/Client":                             "embedded *client.Client of an AWS service client just built by autoscaling.New, which always sets it (provider rebuild path)",
-	"(*pkg/controller.Controller).RunOnce/lookup":                              "NewController stores an entry under every configured group's Name and the map is never modified afterwards (C12.R1/R3/R4), so the lookup by the same Name cannot miss",
-	"(*pkg/cloudprovider/aws.Instance).InstantiationTime/ec2Instance":          "set from a length-checked successful DescribeInstances reply when err == nil",
-	"(*pkg/controller.Controller).calculateNewNodeMetrics/Node":                "entries whose node is nil are removed when the node-info map is built (CreateNodeNameToInfoMap deletes incomplete infos)",
+	"(pkg/cloudprovider/aws.Builder).Build/Client":                    "embedded *client.Client of an AWS service client just built by autoscaling.New, which always sets it (provider rebuild path)",
+	"(*pkg/controller.Controller).RunOnce/lookup":                     "NewController stores an entry under every configured group's Name and the map is never modified afterwards (C12.R1/R3/R4), so the lookup by the same Name cannot miss",
+	"(*pkg/cloudprovider/aws.Instance).InstantiationTime/ec2Instance": "set from a length-checked successful DescribeInstances reply when err == nil",
+	"(*pkg/controller.Controller).calculateNewNodeMetrics/Node":       "entries whose node is nil are removed when the node-info map is built (CreateNodeNameToInfoMap deletes incomplete infos)",
 }
 
 // reviewedReplyFields: pointer fields of AWS SDK reply structures dereferenced without a local
@@ -35,15 +35,15 @@ var reviewedDerefs = map[string]string{
 // and failing calls, not over malformed successful AWS replies (an assumption of this property).
 var reviewedReplyFields = map[string]string{
 	"autoscaling.TerminateInstanceInAutoScalingGroupOutput.Activity": "field of a successful TerminateInstanceInAutoScalingGroup reply",
-	"autoscaling.Activity.Description":                                "same successful reply",
-	"ec2.InstanceStatus.InstanceState":                                "element of a successful DescribeInstanceStatus page",
-	"ec2.InstanceState.Name":                                          "same successful page",
-	"autoscaling.Instance.AvailabilityZone":                           "instance of the cached, successfully described ASG",
-	"autoscaling.Instance.InstanceId":                                 "instance of the cached, successfully described ASG",
-	"autoscaling.Group.VPCZoneIdentifier":                             "group of a successful DescribeAutoScalingGroups reply (length checked)",
-	"ec2.Instance.LaunchTime":                                         "instance of a successful DescribeInstances reply with exactly one reservation and instance",
-	"ec2.CreateFleetError.ErrorMessage":                               "element of the Errors list of a successful CreateFleet reply",
-	"autoscaling.TagDescription.Key":                                  "tag of the successfully described ASG (registration path)",
+	"autoscaling.Activity.Description":                               "same successful reply",
+	"ec2.InstanceStatus.InstanceState":                               "element of a successful DescribeInstanceStatus page",
+	"ec2.InstanceState.Name":                                         "same successful page",
+	"autoscaling.Instance.AvailabilityZone":                          "instance of the cached, successfully described ASG",
+	"autoscaling.Instance.InstanceId":                                "instance of the cached, successfully described ASG",
+	"autoscaling.Group.VPCZoneIdentifier":                            "group of a successful DescribeAutoScalingGroups reply (length checked)",
+	"ec2.Instance.LaunchTime":                                        "instance of a successful DescribeInstances reply with exactly one reservation and instance",
+	"ec2.CreateFleetError.ErrorMessage":                              "element of the Errors list of a successful CreateFleet reply",
+	"autoscaling.TagDescription.Key":                                 "tag of the successfully described ASG (registration path)",
 }
 
 // reviewedCallResults: possibly-nil results of repo accessors dereferenced without a local guard,
@@ -562,6 +562,8 @@ func (ck *Check) loopCensus(rule string, fns []*ssa.Function) {
 				ck.ok(rule, key, pos, funcID(fn), "structurally bounded loop", "range loop")
 			case ck.isInductionLoop(l):
 				ck.ok(rule, key, pos, funcID(fn), "structurally bounded loop", "monotone induction variable against a loop-invariant bound")
+			case peelLoopOf(ck, l) != nil:
+				ck.ok(rule, key, pos, funcID(fn), "structurally bounded loop", "peeling: every trip takes a non-empty prefix off the remaining slice")
 			case ck.isChunkLoopAt(l):
 				ck.ok(rule, key, pos, funcID(fn), "structurally bounded loop", "head/tail chunking: the remaining slice shrinks by a positive constant")
 			case ck.isTimedWait(l):
@@ -583,12 +585,37 @@ func (ck *Check) loopCensus(rule string, fns []*ssa.Function) {
 func (ck *Check) isInductionLoop(l *Loop) bool {
 	h := l.Header
 	// the header (or the first test on the way into the body) compares an induction φ with an invariant
+	// every exit test that each trip around the loop passes (it dominates all latches): the header's
+	// own test, or a later conjunct of a compound condition
 	var tests []*ssa.BinOp
-	if br, ok := h.Instrs[len(h.Instrs)-1].(*ssa.If); ok {
+	for b := range l.Blocks {
+		br, ok := b.Instrs[len(b.Instrs)-1].(*ssa.If)
+		if !ok {
+			continue
+		}
+		leaves := false
+		for _, s := range b.Succs {
+			if !l.Blocks[s] {
+				leaves = true
+			}
+		}
+		if !leaves {
+			continue
+		}
+		onEveryTrip := true
+		for _, p := range h.Preds {
+			if l.Blocks[p] && !b.Dominates(p) {
+				onEveryTrip = false
+			}
+		}
+		if !onEveryTrip {
+			continue
+		}
 		if bo, ok := br.Cond.(*ssa.BinOp); ok {
 			tests = append(tests, bo)
 		}
 	}
+	sort.Slice(tests, func(i, j int) bool { return tests[i].Pos() < tests[j].Pos() })
 	for _, bo := range tests {
 		for _, side := range [][2]ssa.Value{{bo.X, bo.Y}, {bo.Y, bo.X}} {
 			ph, ok := side[0].(*ssa.Phi)
@@ -597,6 +624,27 @@ func (ck *Check) isInductionLoop(l *Loop) bool {
 			}
 			if in, ok := side[1].(ssa.Instruction); ok && l.Blocks[in.Block()] {
 				continue // bound not invariant
+			}
+			// the direction in which the test lets the loop go on: φ below the bound (+1) or above it (-1)
+			op := bo.Op
+			if side[0] != bo.X {
+				op = map[token.Token]token.Token{token.LSS: token.GTR, token.LEQ: token.GEQ, token.GTR: token.LSS, token.GEQ: token.LEQ}[bo.Op]
+			}
+			dir := 0
+			switch op {
+			case token.LSS, token.LEQ:
+				dir = 1
+			case token.GTR, token.GEQ:
+				dir = -1
+			default:
+				continue
+			}
+			if br, ok := bo.Block().Instrs[len(bo.Block().Instrs)-1].(*ssa.If); ok && br.Cond == ssa.Value(bo) {
+				if !l.Blocks[bo.Block().Succs[0]] {
+					dir = -dir // the loop goes on when the test fails
+				}
+			} else {
+				continue
 			}
 			mono := true
 			stepped := false
@@ -612,6 +660,10 @@ func (ck *Check) isInductionLoop(l *Loop) bool {
 				k, ok := st.Y.(*ssa.Const)
 				if !ok || k.Int64() <= 0 {
 					mono = false
+					continue
+				}
+				if (st.Op == token.ADD) != (dir > 0) {
+					mono = false // stepping away from the bound
 					continue
 				}
 				stepped = true
@@ -658,14 +710,13 @@ func (ck *Check) percentGuards(rule string) {
 	a := ck.A
 	for _, fn := range []*ssa.Function{a.CalcPercent, a.CalcDelta} {
 		n := 0
-		for _, b := range fn.Blocks {
-			for _, in := range b.Instrs {
-				if bo, ok := in.(*ssa.BinOp); ok && bo.Op == token.QUO {
-					n++
-					ck.cond(!isInteger(bo.Type()), rule, fmt.Sprintf("%s/div#%d", funcID(fn), n), ck.P.instrPos(bo), funcID(fn), "divisions in the calculators are floating-point (cannot trap)", bo.Type().String(), "integer division by a zero capacity / threshold panics")
-				}
+		// the calculator and the expression helpers / closures it calls
+		ck.bodyInstrs(fn, func(_ *Ctx, in_ *ssa.Function, in ssa.Instruction) {
+			if bo, ok := in.(*ssa.BinOp); ok && bo.Op == token.QUO {
+				n++
+				ck.cond(!isInteger(bo.Type()), rule, fmt.Sprintf("%s/div#%d", funcID(fn), n), ck.P.instrPos(bo), funcID(in_), "divisions in the calculators are floating-point (cannot trap)", bo.Type().String(), "integer division by a zero capacity / threshold panics")
 			}
-		}
+		})
 		ck.floor(rule, "divisions in "+fn.Name(), n, 1)
 	}
 	// zero capacity returns an error or the sentinel
